@@ -10124,6 +10124,13 @@ class WBEMConnection:  # pylint: disable=too-many-instance-attributes
         stats = self.statistics.start_timer(method_name)
         try:
 
+            NewIndication = self._iparam_instance(
+                NewIndication, 'NewIndication', required=True)
+
+            # The EXPPARAMVALUE element can contain an INSTANCE element, but
+            # not a VALUE.NAMEDINSTANCE element, so the path is not sent.
+            NewIndication.path = None
+
             self._iexportcall(
                 method_name,
                 NewIndication=NewIndication)
